@@ -21,7 +21,16 @@ RULE = ("libraries built from sequences over a 12-block universe (entries with k
         "the subclass, both (either way round) or neither, given as a tuple or a list (empty ones included), through a plain or a "
         "subclassed Library (also built with blocks=None), with preserve_comments_on_top True / False / None (None is falsy: off); "
         "block_type_order=None is not an order: it may be refused, if it is accepted the result must still be a permutation "
-        "keeping comment runs attached (oracle only wherever a subclass instance is held: the model has no such class). distinct = "
+        "keeping comment runs attached (oracle only wherever a subclass instance is held: the model has no such class); STATE "
+        "(harness/props/c16_state.py): blocks of every class - comments, preambles, @strings, entries, failed / duplicate-key / "
+        "duplicate-field / middleware-error blocks and the blocks they wrap - carrying everything equality sees: parser metadata "
+        "(set_parser_metadata or the mapping; str, numbers, booleans, None, empty, list, tuple, NameParts, nested and shared values; "
+        "what the default parse stack and field-sorting / month / name / LaTeX / key / enclosing middlewares and a user BlockMiddleware "
+        "marking every block leave behind), start_line / raw / field lines None, 0, empty, large, values that are no str in fields, "
+        "@strings, preambles, comments, Field and block subclasses, attributes put on the instance by the caller; every block kind x "
+        "every kind of state one at a time, sampled mixtures, libraries parsed with the default or an empty stack plus extras; the "
+        "result must read like the stable arrangement of a deep copy taken before the call, attribute by attribute, by instance state "
+        "and by Block.__eq__, the input unchanged (oracle only with user classes / caller attributes / values without wire shape). distinct = "
         "distinct (sequence, order, mode, times); non-trivial = at least two blocks")
 TRUSTED = ["CPython's list.sort is a stable sort (Base/StableSort.v proves the stable sorted permutation unique, so any such "
            "sort computes the model's insertion sort); tuple comparison (int, str) is lexicographic, str by code point",
@@ -195,6 +204,8 @@ def generate(rng, tier):
         cases.append({"stream": "assembled", "input": {"ops": ops, "order": rng.choice(all_orders), "preserve": bool(rng.randint(0, 1)),
                                                         "times": rng.choice([1, 1, 1, 2])}})
     generate_userclasses(rng, quick, maxlen, cases)
+    from . import c16_state
+    c16_state.generate_state(rng, quick, maxlen, cases, orders, all_orders)
     return cases
 
 
@@ -297,6 +308,9 @@ def shrink(case):
         d = dict(inp)
         d.update(kw)
         out.append({"stream": "shrink", "input": d})
+    if "state" in inp:
+        from . import c16_state
+        return c16_state.shrink_state(case)
     if "sub" in inp:
         seq, sub, order = inp["seq"], inp["sub"], inp["order"]
         for i in range(len(seq)):
@@ -786,6 +800,9 @@ def impl(case):
     from bibtexparser.library import Library
     from bibtexparser.middlewares import SortBlocksByTypeAndKeyMiddleware
     inp = case["input"]
+    if "state" in inp:
+        from . import c16_state
+        return c16_state.impl_state(case)
     if "sub" in inp:
         return impl_uc(case)
     by_value = "items" in inp or "lines" in inp or "ops" in inp
